@@ -275,6 +275,11 @@ func (x *Exec) siteEnvCall(st *State, fr *Frame, cc *ssa.CallCommon) *specEnv {
 			defer func() { recover() }()
 			env.vars["recv"] = x.val(st, fr, cc.Value)
 		}()
+	} else if cc.StaticCallee() == nil {
+		func() {
+			defer func() { recover() }()
+			env.vars["fnval"] = x.val(st, fr, cc.Value) // the function value being called
+		}()
 	}
 	for k, a := range explicitArgs(cc) {
 		func() {
